@@ -81,6 +81,27 @@ def cls_c17(verdict, case):
     return out or [cls_default(verdict, case)]
 
 
+def cls_ugm(verdict, case):
+    """C05: lines of the ugm component carry clause ids C05.<clause> (several joined by " ;; "), a model/implementation
+    difference is "diff <op>.<what>", a recovered panic "panic ugm.<op>"; full-stack lines use the tagged classifier"""
+    if case and '"c":"core"' in case[-1][:40]:
+        return cls_tagged("C05")(verdict, case)
+    out = []
+    for part in (verdict[4:] if verdict.startswith("inv ") else verdict).split(" ;; "):
+        w = part.split()
+        if not w:
+            continue
+        if w[0] in ("diff", "panic"):
+            out.append(w[0] + ("-" + re.sub(r"\[.*$", "", w[1]) if len(w) > 1 else ""))
+        elif w[0].startswith("C05."):
+            out.append(w[0])
+        else:
+            out.append(w[0])
+    return out
+
+
+# a difference between the stepped Core model and the implementation is reported by the properties whose theorems are
+# about that model
 # a difference between the stepped Core model and the implementation is reported by the properties whose theorems are
 # about that model
 DIFF_OWNERS = {"C03"}
@@ -89,6 +110,61 @@ DIFF_OWNERS = {"C03"}
 def nontrivial_res(line):
     # a resource case is trivial when both vectors are nil/empty
     return not ('"l":null' in line and '"r":null' in line) and not ('"l":[]' in line and '"r":[]' in line)
+
+
+def cls_preempt(prefix):
+    """component `preempt`: every failing clause is tagged "<Cxx>.<clause-id>[+<input class>]"; a property's check takes the
+    clauses tagged with its own id; a model/implementation difference (diff <what>) is reported by both properties"""
+    def f(verdict, case):
+        out = []
+        body = verdict[4:] if verdict.startswith("inv ") else verdict
+        for part in body.split(" ;; "):
+            w = part.split()
+            if not w:
+                continue
+            if w[0] == "diff" and len(w) > 1:
+                out.append("diff-" + re.sub(r"\[.*$", "", w[1]))
+            elif w[0].startswith(prefix + "."):
+                out.append(w[0])
+        return out
+    return f
+
+
+PREEMPT_RULE = ("preempt: random worlds — a real queue tree (3..9 queues, depth <= 4, sibling names that are string prefixes of each other, every mix of "
+                "preemption.policy default/fence/disabled, priority.policy default/fence, priority.offset -3..3, preemption.delay, sparse guaranteed and max over cpu/mem/gpu), "
+                "1..6 real nodes (some unschedulable), 3..16 bound allocations of real applications spread over the leaves and nodes with every flag combination "
+                "(released, preempted with its preempting resource booked, required node, placeholder, priority -2..5, allowPreemptSelf, originator, distinct creation times) and one ask "
+                "(sparse resources, priority, allowPreemptOther, required node, age, already triggered). For every world, each on a fresh copy built from the real objects: "
+                "Queue.FindEligiblePreemptionVictims with the snapshot methods before and after 1..5 Add/RemoveAllocation steps; CheckPreconditions under two (delay, attempt frequency, last check) settings; "
+                "CheckPreconditions+TryPreemption without plugin and with a mock preemption predicate plugin (per node allow/deny, index offsets, out-of-range index) that also records the per-node victim lists; "
+                "NewRequiredNodePreemptor(...).tryPreemption on a chosen node; a lowered (still valid) maximum applied with ApplyConf/UpdateQueueProperties and a quota.preemption.delay, then TryQuotaPreemption (synchronous hook). "
+                "Recorded: victims marked, release messages, triggered flag, preempting per queue, chosen node, snapshots with remaining-guaranteed/preemptable. "
+                "non-trivial = not a reset line; distinct = distinct protocol lines")
+PREEMPT_TRUSTED = ["exact integer arithmetic in the preemption model (no quantity saturates; C18 owns saturation)",
+                   "GetMaxResource() of every queue (fence by max) is read from the implementation (C02 owns it); effective queue properties (policy inheritance) are read back from the real queues",
+                   "float-valued parts of the quota preemptor (share split in getChildQueuesPreemptableResource, the sort key of SortAllocationsBasedOnAsk): the per-leaf plan is taken from the implementation, "
+                   "the selection theorem is proved for every candidate order",
+                   "nodes carry no reservations in the generated worlds (the reservation-cancelling branch of initWorkingState is exercised by the full-stack component only)",
+                   "with a plugin, which of several equally scored nodes wins depends on goroutine scheduling: the model accepts any of them",
+                   "time: delays are crossed by choosing creation times / 1ms quota delay; CheckPreconditions is evaluated with margins of seconds"]
+
+def cls_conf(verdict, case):
+    """component conf (C15): every failing clause carries an id "C15.<clause>[.<cause>]"; a model/implementation difference is
+    "diff conf.<what>"; a recovered panic is reported by the generic "panic conf.validate" part unless the driver attributed it
+    to a cause (C15.PL.panic-*, C15.LD.panic, C15.RL.panic)"""
+    body = verdict[4:] if verdict.startswith("inv ") else verdict
+    parts = [p.split() for p in body.split(" ;; ") if p.split()]
+    attributed = any(w[0].startswith("C15.PL.panic") or w[0] in ("C15.LD.panic", "C15.RL.panic") for w in parts)
+    out = []
+    for w in parts:
+        if w[0] == "diff" and len(w) > 1:
+            out.append("diff-" + w[1])
+        elif w[0] == "panic":
+            if not attributed:
+                out.append("panic-" + (w[1] if len(w) > 1 else "?"))
+        else:
+            out.append(w[0])
+    return sorted(set(out))
 
 
 NOT_YET = {}
@@ -306,6 +382,104 @@ PROPS = {
         level_note="trusted: Lean kernel; hand-written placement model tied by correspondence only; regexps as an oracle; ASCII names; ACL texts from the generated configuration",
         technique="Lean 4 proof over an executable model of the placement path + differential correspondence on a real ClusterContext",
         design_ref="DESIGN.md section 4 C17",
+    ),
+    "C07": dict(
+        module="YkProps.C07",
+        leancheck=["YkModel.Preempt", "YkProofs.Preempt", "YkProps.C07"],
+        runs=[dict(comp="preempt", quick=2000, thorough=24000)],
+        classify=cls_preempt("C07"),
+        nontrivial=lambda line: '"op":"reset"' not in line,
+        rule=PREEMPT_RULE,
+        trusted=PREEMPT_TRUSTED,
+        assumptions=["queue tree well-formed (parents before children); allocation keys unique; victim resources non-negative"],
+        level_text="Lean 4 proofs for all worlds: every potential victim found by the model of findEligiblePreemptionVictims is a bound allocation, not released, not preempted, without required node, in a different leaf inside the asker's fence whose policy is not disabled, shares a type with the ask and does not outrank the ask along the tree path unless a priority fence applies; CheckPreconditions, required-node and quota filters; TryPreemption commits a duplicate-free sub-list of the potential victims. "
+                   "Tie: correspondence of the model against the real functions on generated worlds + the clauses C07.* evaluated on what the implementation did.",
+        level_note="trusted: Lean kernel; hand-written model tied by correspondence only; exact arithmetic; effective max / queue properties and float-valued quota shares read from the implementation; no reservations on nodes",
+        technique="Lean 4 proofs over a model of the preemption code + differential correspondence on the real objects",
+        design_ref="DESIGN.md section 4 C07",
+    ),
+    "C08": dict(
+        module="YkProps.C08",
+        leancheck=["YkModel.Preempt", "YkProofs.Preempt", "YkProps.C08"],
+        runs=[dict(comp="preempt", quick=2000, thorough=24000)],
+        classify=cls_preempt("C08"),
+        nontrivial=lambda line: '"op":"reset"' not in line,
+        rule=PREEMPT_RULE,
+        trusted=PREEMPT_TRUSTED,
+        assumptions=["queue tree well-formed (parents before children); allocation keys unique; victim resources non-negative"],
+        level_text="Lean 4 proofs for all worlds: a negative remaining-guaranteed entry is witnessed by a queue of the path that is above its guaranteed share; a leaf within its guarantee offers no victims and — full strength, every well-formed world — a leaf offers victims only if a queue of its path is above its guaranteed share whenever its private path sets a guarantee (a private guarantee is never ignored); every victim is taken in a what-if state where that holds for a type the ask needs; no guarantee on the ask path means no attempt; "
+                   "quota preemption plans no more than the excess over the lowered maximum, gives a child no share of a type on which it is at or below its guarantee, and never claims more than planned for any candidate order; "
+                   "the statement 'a commit covers the ask' is kept in full, REFUTED by a machine-checked witness (known finding) and proved for single-type asks. "
+                   "Tie: correspondence of the model against the real functions + the clauses C08.* evaluated on what the implementation did.",
+        level_note="trusted: Lean kernel; hand-written model tied by correspondence only; exact arithmetic; float-valued quota shares read from the implementation; no reservations on nodes",
+        technique="Lean 4 proofs over a model of the preemption code + refutation witness + differential correspondence on the real objects",
+        design_ref="DESIGN.md section 4 C08",
+    ),
+    "C05": dict(
+        module="YkProps.C05",
+        leancheck=["YkModel.Ugm", "YkProofs.Ugm", "YkProofs.UgmAcct", "YkProofs.UgmCfg", "YkProofs.UgmLoad", "YkProofs.UgmMgr", "YkProofs.UgmMAcct", "YkProps.C05"],
+        runs=[dict(comp="ugm", quick=1600, thorough=48000), dict(comp="core", quick=300, thorough=6000, extra=["-mode", "mixed"])],
+        classify=cls_ugm,
+        nontrivial=lambda line: '"op":"reset"' not in line,
+        rule="ugm: random cases on the real ugm.Manager singleton (reset with ClearUserTrackers/ClearGroupTrackers/ClearConfigLimits): queue universe root, root.a, root.a.b, root.c; "
+             "users u1..u3 (+ '*'), groups g1..g3 (+ '*'), each user with a fixed ordered group list; 3..6 applications; limit layouts (named users/groups split over 1-2 entries, wildcard user / wildcard group entries, "
+             "max resources over {cpu,mem} and/or max applications, values shrinking with the depth) generated until configs.Validate accepts them; per case up to 5 Manager.UpdateConfig calls interleaved with 10..35 of: "
+             "sched (CanRunApp for an application that holds nothing, Headroom, FitInMaxUndef, IncreaseTrackedResource - what Queue.TryAllocate/Application.tryAllocate do), Headroom, CanRunApp, forced IncreaseTrackedResource, "
+             "DecreaseTrackedResource of a live allocation (removeApp with the last one), a few off-contract releases. After every operation the complete manager state (every queue tracker of every user and group tracker incl. useWildCard, "
+             "application->group links, the limit maps of the active configuration; cross-checked against GetResourceUsageDAOInfo) is dumped; the driver steps the model from the previous dumped state (all orders of the map iterations of "
+             "clearEarlierSetLimits), compares answer and state, and evaluates the clauses enforce-res/enforce-apps, usage-ne-sum/apps-ne-live (against a ledger of live allocations), group-changed, limits.* (limit in force vs limit configured "
+             "for every user/group x queue). Every case is re-executed twice to detect dependence on Go's map order. non-trivial = not a reset line; distinct = distinct protocol lines",
+        trusted=["exact integer arithmetic in the tracker model (no quantity saturates; C18 owns saturation)",
+                 "queue paths start with the root queue; resource vectors are Go maps (unique keys)",
+                 "Go map iteration: the model iterates in list order; for the one order-sensitive loop (clearEarlierSetGroupLimits/UserLimits) the driver accepts the outcome of any order and reports the dependence",
+                 "locks of Manager/UserTracker/GroupTracker (single goroutine in the harness); ugm events are not modelled",
+                 "the caller side (Application.incUserResourceUsage/decUserResourceUsage, Queue.TryAllocate) is covered by the full-stack check (clauses I12/C05.usage-ne-sum of the core component)"],
+        assumptions=["callers meet the contract histOk of YkModel/Ugm.lean: a release is for a live allocation, removeApp comes with the last allocation of the application (as application.go does)",
+                     "configurations passed to UpdateConfig passed configs.Validate"],
+        level_text="Lean 4 proofs over the model of pkg/scheduler/ugm (queue-tracker tree, user/group trackers, manager, UpdateConfig with its five phases as written): "
+                   "(enforcement) for every manager state: if an ask fits (FitInMaxUndef) in what Manager.Headroom answered, then after IncreaseTrackedResource every queue tracker on the path of the USER's tree and of the resolved GROUP's tree is within its maximum on every type of the ask the maximum defines, provided it was before (tree-level lemma for any answer not larger than the headroom of the walk); "
+                   "Manager.CanRunApp = true admits at most max-applications on every tracker of both trees; "
+                   "(accounting) for EVERY history of manager operations under the callers' contract - Headroom, CanRunApp, Increase, Decrease (incl. removeApp and the removal of emptied trackers) and configuration reloads (limit changes, unlinks, tracker removal) - the usage a user tracker holds = sum of the user's live allocations per queue and type; the same invariant for any single tracker tree; a release after the increase restores; "
+                   "the application->group link of a running application survives Headroom/CanRunApp/Increase/Decrease; "
+                   "(limits follow configuration) proved for every first configuration loaded into an empty manager (users: named, else wildcard, else none; groups), the unrestricted statement is machine-refuted by witnesses (stale wildcard limit, lost named limit, lost group limit), as are group accounting across reloads and the determinism of a reload (Go map order) - known findings, replayed on the real manager from corpus/C05; a small-scope search of the model (tools/ugm_search.lean: <=3 paths, principals {a,b,*}, <=3 reloads, ~3.6 million histories) finds no further class and no violation outside the two confirmed mechanisms. "
+                   "Tie: differential correspondence of the model against the real ugm.Manager (answers + complete state after every operation) and the property clauses evaluated on the implementation's state.",
+        level_note="trusted: Lean kernel; hand-written Ugm model tied by correspondence only; exact arithmetic; queue paths start at the root; group accounting is proved per tracker tree only for histories without resetGroupEarlierUsage (refuted across reloads: known finding)",
+        technique="Lean 4 proofs (fold invariants over the tracker tree and over UpdateConfig) + machine-checked refutations + differential correspondence on ugm.Manager",
+        design_ref="DESIGN.md section 4 C05",
+    ),
+    "C15": dict(
+        module="YkProps.C15",
+        leancheck=["YkModel.Conf", "YkModel.ConfSpec", "YkProofs.Conf", "YkProofs.ConfLimits", "YkProofs.ConfMain", "YkProofs.ConfOrder", "YkProofs.ConfRules", "YkProps.C15"],
+        runs=[dict(comp="conf", quick=4000, thorough=80000)],
+        classify=cls_conf,
+        nontrivial=lambda line: '"decodeErr"' not in line,
+        rule="conf: YAML documents generated as trees (1-2 partitions; a root or several top level queues, depth <= 4, <= 3 children per queue; sparse max/guaranteed maps over 4 resource types "
+             "written with unit suffixes, white space, bad and overflowing quantities; maxapplications; 1-3 limit entries per queue with named and wildcard users and groups, mostly consistent with what "
+             "was inherited, in a quarter of the documents consistent only with what the validator compares; child templates; properties; ACL strings incl. leading/trailing/double spaces and tabs; "
+             "0-3 placement rules with chains of depth <= 3 over fixed/user/tag/provided/test/recovery/unknown/upper-case names, existing, missing, qualified, mis-cased and malformed values, filters; "
+             "node sort policy and weights). Each document is decoded (strict) and dumped for the model, validated by the real configs.LoadSchedulerConfigFromByteArray, re-validated under 4 (quick) / 8 "
+             "(thorough) re-orderings of every YAML mapping, and, if accepted, loaded with scheduler.NewClusterContext, two applications are placed with PartitionContext.AddApplication, and the document "
+             "is loaded into a running context with ClusterContext.UpdateRMSchedulerConfig. non-trivial = the document decodes; distinct = distinct protocol lines",
+        trusted=["YAML decoding (yaml.v3 with KnownFields) is glue: the model starts from the decoded SchedulerConfig, dumped with nil and empty kept apart",
+                 "regexp.Compile on a single-entry placement filter list enters the model as a boolean (RE2 syntax is not modelled); the five validation regular expressions are hand-written recognisers "
+                 "whose literals are tied to the source by the translator (T5, Generated/ConfConsts.lean)",
+                 "strings.ToLower on ASCII only (identifiers with upper-case non-ASCII letters are outside the generator)",
+                 "resource weights enter the model by their sign",
+                 "load model: only the failure points of NewConfiguredQueue/applyConf/NewACL/template.FromConf/newRule/ugm.UpdateConfig, tied by correspondence; queue objects, properties and user/group "
+                 "trackers built by a load are not modelled (C16/C05)"],
+        assumptions=["resource maps of the configuration have unique keys (they are Go maps)"],
+        level_text="Lean 4 proofs by structural induction over the configuration tree (all trees, all sparse resource maps with units, all limit lists, all rule lists): whatever the model validator (a statement-by-statement mirror of "
+                   "configvalidator.go) accepts has a single root without resources, valid sibling-unique queue names, every maximum within the maximum of EVERY ancestor on the types both define, guaranteed within "
+                   "the own and every ancestor's maximum, children's guaranteed sums within the parent's guaranteed and within every maximum above (exact below MaxInt64; the saturating sum is modelled), max-applications set and "
+                   "non-increasing below a queue that sets it, limits within the queue maximum / application count and within every entry of the same name on every ancestor (wildcard entries when no ancestor names the user or group); "
+                   "every resource map validation parsed parses again at load time, so a load can only fail for the root name, an ACL, a child template or a placement rule, and succeeds under the hypotheses excluding these; "
+                   "a single canonical-spelling fixed rule that was accepted resolves at run time; NewResourceFromConf and the resource comparison are independent of map order. "
+                   "The unrestricted loadability statement, 'placement rules resolvable' and the stricter readings of the limit rules are refuted by machine-checked accepted configurations (known findings). "
+                   "Tie: correspondence of model and real validator (verdict, error class, rewritten tree, under re-ordered mappings), of the load predicates with NewClusterContext / UpdateRMSchedulerConfig, of the static-rule "
+                   "clause with PartitionContext.AddApplication, and every proved clause evaluated on every accepted tree; the five regular expression literals and the rule / policy names are re-extracted from the source on every run (T5).",
+        level_note="trusted: Lean kernel; hand-written validator model tied by correspondence and by T5 for the literals; YAML decoding; regexp compilation as an input bit; load side modelled at its failure points only",
+        technique="Lean 4 proof (structural induction over configuration trees) + differential correspondence on the real validator and loader",
+        design_ref="DESIGN.md section 4 C15",
     ),
 }
 
